@@ -10,7 +10,7 @@ use crate::common::{keypair_from_seed, peer_from_seed};
 use crate::engine::{pick_idx, CampaignCfg, CaseFail, CaseOk, CaseResult, Ctx};
 use crate::f2::{pipe, PipeCfg};
 use crate::{ensure, fail};
-use futures::{FutureExt, StreamExt};
+use futures::StreamExt;
 use litep2p::protocol::{Direction, TransportEvent, TransportService};
 use litep2p::verif::scripted::{Call, ConnCommand, Inject, MgrEvent, VerifManager};
 use litep2p::yamux;
@@ -69,6 +69,8 @@ struct ServiceView {
 struct W {
     m: VerifManager,
     services: Vec<TransportService>,
+    /// one wake flag per service: a service is polled only when it was woken, like a task would be
+    gates: Vec<std::sync::Arc<crate::common::WakeGate>>,
     views: Vec<ServiceView>,
     peers: Vec<PeerId>,
     /// live connections: id -> peer (accepted, protocols notified, not closed)
@@ -112,7 +114,7 @@ impl W {
                 }
             }
             for si in 0..self.services.len() {
-                while let Some(Some(ev)) = tokio::task::unconstrained(self.services[si].next()).now_or_never() {
+                while let Some(ev) = crate::common::next_if_woken(&mut self.services[si], &self.gates[si]) {
                     moved = true;
                     self.on_service_event(si, ev)?;
                 }
@@ -195,6 +197,7 @@ async fn run_async(c: &Case, real_time: bool) -> Result<(bool, bool, bool, bool)
     let n_services = services.len();
     let mut w = W {
         m,
+        gates: (0..services.len()).map(|_| crate::common::WakeGate::new()).collect(),
         services,
         views: (0..n_services).map(|_| ServiceView { connected: BTreeMap::new(), issued: BTreeMap::new(), answered: BTreeSet::new() }).collect(),
         peers: (0..N_PEERS).map(|i| peer_from_seed(0xC0800 + i as u64)).collect(),
